@@ -6,8 +6,11 @@ CONSTANTS
   KeyInjective = TRUE
   StaleByKey = TRUE
   OldVersions = TRUE
-  StartRecipes = {"virgin", "queued", "queued_r", "paused", "init", "init_d", "init_rq", "xfer_nosize", "xfer_some", "xfer_full", "complete", "incomplete", "failed_r", "failed_nr", "failed_xfer", "aborted", "aborted_xfer", "paused_xfer", "requeued"}
+  StartRecipes = {"virgin", "queued", "queued_r", "paused", "init", "init_d", "init_rq", "xfer_nosize", "xfer_some", "xfer_full", "complete", "incomplete", "failed_r", "failed_nr", "failed_xfer", "aborted", "aborted_xfer", "paused_xfer", "requeued", "xfer_zero", "xfer_empty", "xfer_one", "xfer_onez"}
   MutOps = {"queue", "queue_r", "initialize", "start", "complete", "incomplete", "fail", "fail_nr", "abort", "pause"}
+  SetVals = {"some", "full", "zero", "empty", "one", "onez"}
+  PeerFaults = TRUE
+  PeerToggles = TRUE
   MaxInit = 2
   MaxPresent = 3
   MaxOps = 9
